@@ -330,3 +330,32 @@ package rules
 //@   option safety off
 //@   option callpre off
 //@   ghost at call interfaceNameDispatchChains: check defaultIfaceName == "" ==> (len(arg6) == 0 && len(arg7) == 0) ; check defaultIfaceName != "" ==> (len(arg6) >= 1 && len(arg7) >= 1)
+
+//@ -- C08: every IP set a rule names is matched with the method for ITS kind of set, once, under the name derived
+//@ -- from its id: plain address sets with the address match, address+protocol+port sets (service matches) with
+//@ -- the three-dimensional match, negated sets with the negated match
+//@ ghost c08Name string
+//@ ghost c08NSrc int
+//@ ghost c08NDst int
+//@ ghost c08NDstPort int
+//@ ghost c08NNotSrc int
+//@ ghost c08NNotDst int
+//@ func (*DefaultRuleRenderer).CalculateRuleMatch
+//@   property C08
+//@   option safety off
+//@   option mathint
+//@   option stable (*proto.Rule).SrcIpSetIds, (*proto.Rule).DstIpSetIds, (*proto.Rule).DstIpPortSetIds, (*proto.Rule).NotSrcIpSetIds, (*proto.Rule).NotDstIpSetIds, (*proto.Rule).DstNamedPortIpSetIds, []string
+//@   requires pRule != nil && c08NSrc == 0 && c08NDst == 0 && c08NDstPort == 0 && c08NNotSrc == 0 && c08NNotDst == 0
+//@   ghost at call CalculateRuleMatch$1: c08Name = res
+//@   ghost at call ).SourceIPSet: check arg1 == c08Name ; c08NSrc = c08NSrc + 1
+//@   ghost at call ).DestIPSet: check arg1 == c08Name ; c08NDst = c08NDst + 1
+//@   ghost at call ).DestIPPortSet: check arg1 == c08Name ; c08NDstPort = c08NDstPort + 1
+//@   ghost at call ).NotSourceIPSet: check arg1 == c08Name ; c08NNotSrc = c08NNotSrc + 1
+//@   ghost at call ).NotDestIPSet: check arg1 == c08Name ; c08NNotDst = c08NNotDst + 1
+//@   loop 1 invariant -1 <= rangeindex && rangeindex < len(pRule.SrcIpSetIds) && c08NSrc == rangeindex + 1
+//@   loop 3 invariant -1 <= rangeindex && rangeindex < len(pRule.DstIpSetIds) && c08NDst == rangeindex + 1
+//@   loop 4 invariant -1 <= rangeindex && rangeindex < len(pRule.DstIpPortSetIds) && c08NDstPort == rangeindex + 1
+//@   loop 5 invariant -1 <= rangeindex && rangeindex < len(pRule.DstNamedPortIpSetIds) && c08NDstPort == len(pRule.DstIpPortSetIds) + rangeindex + 1
+//@   loop 6 invariant -1 <= rangeindex && rangeindex < len(pRule.NotSrcIpSetIds) && c08NNotSrc == rangeindex + 1
+//@   loop 9 invariant -1 <= rangeindex && rangeindex < len(pRule.NotDstIpSetIds) && c08NNotDst == rangeindex + 1
+//@   ensures c08NSrc == len(pRule.SrcIpSetIds) && c08NDst == len(pRule.DstIpSetIds) && c08NDstPort == len(pRule.DstIpPortSetIds) + len(pRule.DstNamedPortIpSetIds) && c08NNotSrc == len(pRule.NotSrcIpSetIds) && c08NNotDst == len(pRule.NotDstIpSetIds)
